@@ -339,8 +339,8 @@ func TestVerifC02(t *testing.T) {
 		// (three consecutive idle readings: a WriteBlock goroutine that putWithPipe has just spawned
 		// may not have entered the method yet)
 		for w, idle := 0, 0; idle < 3; w++ {
-			if w > 5000 {
-				t.Fatalf("instrumented methods still running 5 s after the request returned")
+			if w > 30000 {
+				t.Fatalf("instrumented methods still running 30 s after the request returned")
 			}
 			runtime.Gosched()
 			time.Sleep(time.Millisecond)
@@ -468,7 +468,15 @@ func TestVerifC02(t *testing.T) {
 	}
 	// ---- sample ----
 	chosen := jobs
-	if n > 0 && n < len(jobs) {
+	if only >= 0 {
+		// replay of one case: its index identifies the job whatever the sample size was
+		chosen = nil
+		for _, j := range jobs {
+			if j.idx == only {
+				chosen = append(chosen, j)
+			}
+		}
+	} else if n > 0 && n < len(jobs) {
 		r := vNewRand(seed*7919 + 2)
 		perm := make([]int, len(jobs))
 		for i := range perm {
